@@ -14,9 +14,18 @@ RULE = ("random calls (alias, capture selection all/none/by position/by name, st
         "the faithful domain) + structurally equal variants (dict/kwargs insertion order shuffled, excluded arguments "
         "changed); each evaluated under PYTHONHASHSEED 0, 1 and 2; exact key text compared with the model; "
         "non-trivial = at least one captured container argument or keyword; distinct = distinct case")
-ASSUMPTIONS = ["float repr() is taken from the implementation side (floats are opaque repr texts in the model)",
-               "quoted-printable bytes encoding is an oracle; Coq side evaluates only byte strings on which the simple "
-               "encoder is exact (others are checked on the implementation side)"]
+ASSUMPTIONS = ["float repr() is taken from the implementation side (floats are repr texts in the model); every float text "
+               "the harness sends is checked against the grammar Values.JsonWf.float_repr_ok that the injectivity theorem "
+               "is stated on (lib/pyvals.float_repr raises otherwise; Run.RunC06.premises_ok re-checks it in Coq); the "
+               "grammar was validated against json.dumps/repr of 2,000,000 random doubles on this interpreter",
+               "quoted-printable bytes encoding is an oracle (premises of C06_key_injective: invertible, byte strings map "
+               "to surrogate-free text; both are theorems for the simple encoder, C06_key_injective_concrete); Coq side "
+               "evaluates only byte strings on which the simple encoder is exact (others are checked on the "
+               "implementation side)"]
+THEOREMS = ["C06_key_deterministic_partial", "C06_excluded_args_irrelevant", "C06_kwargs_order_irrelevant",
+            "C06_key_injective", "C06_key_injective_concrete", "C06_dumps_injective", "C06_dumps_self_delimiting",
+            "C06_flatten_well_formed", "C06_dumps_not_injective_outside_domain_refuted", "C06_flatten_roundtrip",
+            "C06_set_order_refuted"]
 TRUSTED = ["harness-side mirror of the capture selection used by the collision search"]
 
 ALIASES = ["get_user", "db.fetch", "a b", "x", "get_user_2", "svc:{id}", "é", "in#1", "a args", "kw, x"]
@@ -118,6 +127,25 @@ def generate(rng, tier):
                 if len(a) == 1:
                     cases.append(dict(alias=alias, cap=None, static=static, args=[], kwargs=[["v", a[0]]], variants=[],
                                       via_decorator=True))
+    # float texts: every shape of float.__repr__ (fixed, exponent, subnormal, largest, negative zero) next to the int /
+    # str / nested values that print alike, as positional and as keyword arguments; then random doubles
+    def fl(t):
+        return {"t": "float", "r": t}
+    ffam = [[fl("1e+16")], [pv.i(10**16)], [pv.s("1e+16")], [fl("1000000000000000.0")], [pv.i(10**15)], [fl("1.5e-07")],
+            [fl("5e-324")], [fl("1.7976931348623157e+308")], [fl("-0.0")], [fl("0.0")], [pv.i(0)], [fl("-1.0")], [pv.i(-1)],
+            [fl("1.0"), fl("2.0")], [pv.lst([fl("1.0"), fl("2.0")])], [pv.lst([fl("1.0")]), pv.lst([fl("2.0")])],
+            [pv.s("1.0, 2.0")], [fl("0.0001")], [fl("1e-05")], [fl("12.0")], [fl("1.0"), pv.i(2)], [pv.i(1), fl("2.0")],
+            [pv.dct([("a", fl("1.0"))])], [pv.dct([("a", pv.i(1))])], [pv.tup([fl("2.5"), pv.none()])]]
+    import struct
+    for _ in range(40 if tier == "quick" else 600):
+        x = struct.unpack("<d", struct.pack("<Q", rng.getrandbits(64)))[0]
+        if x == x and x not in (float("inf"), -float("inf")):
+            ffam.append([fl(repr(x))])
+    for a in ffam:
+        cases.append(dict(alias="flt", cap=None, static=True, args=a, kwargs=[], variants=[], via_decorator=True))
+        if len(a) == 1:
+            cases.append(dict(alias="flt", cap=None, static=True, args=[], kwargs=[["v", a[0]]], variants=[],
+                              via_decorator=True))
     # large captured arguments (keys of several KB): the key is still the full text, in every process
     for k in range(6 if tier == "quick" else 30):
         big = [pv.dct([("k%03d" % i, pv.i(i * 7 + k)) for i in range(rng.randrange(90, 140))]),
@@ -244,7 +272,7 @@ def nontrivial(case):
 
 MANIFEST = dict(
     design_ref='6/C06',
-    text="Coq theorems over all aliases, capture selections and tree-shaped argument values: the key text is a function of alias and captured values up to dict/attribute insertion order (deterministic_partial: sets carry their iteration order), arguments excluded from capture and kwargs order are irrelevant, keys are injective on (alias, captured values) for aliases without '=' given injective/self-delimiting json.dumps, flatten/restore round-trip on the faithful domain; the set-order clause is refuted with a witness (known finding F06). Model (select, flatten, dumps, ikey) tied to /repo on every run by comparing the exact key text of _input_interception_key, and the key found in a recording made through the real decorators, with the model's; direct predicate: same call under two other PYTHONHASHSEED values gives the same key, and no two distinct (alias, captured args) share a key.",
-    note='Trusted: Coq kernel + vm_compute; hand-written model of jsonpickle 0.9.3 flatten + json.dumps on the tree domain; quoted-printable for bytes is an oracle; injectivity of dumps is a premise of the injectivity theorem (not yet discharged by a parser); correspondence harness. One clause (sets) is a known finding, reported as KNOWN-FINDING.',
-    technique='Coq proof (induction over value trees, sorting/permutation lemmas) + exact key-text correspondence by vm_compute + two-hash-seed differential run',
+    text="Coq theorems over all aliases, capture selections and tree-shaped argument values: the key text is a function of alias and captured values up to dict/attribute insertion order (deterministic_partial: sets carry their iteration order), arguments excluded from capture and kwargs order are irrelevant, keys are injective on (alias, captured values) for aliases without '=' and captured values in the domain vdom = wf (tree shaped, distinct unreserved keys, no lone surrogates) and leaves_ok (float texts in the float.__repr__ grammar, bytes < 256), given only that the quoted-printable oracle is invertible and maps byte strings to surrogate-free text (both proved for the concrete encoder: C06_key_injective_concrete has no oracle premise); nothing is assumed about json.dumps any more: its injectivity and the self-delimiting text of arrays/objects are proved on the well-formed trees jwf via a verified parser (parse_value fuel (dumps j ++ rest) = Some (j, rest)), flatten maps the value domain into jwf, and witnesses show both facts fail outside jwf; flatten/restore round-trip on the faithful domain; the set-order clause is refuted with a witness (known finding F06). Model (select, flatten, dumps, ikey) tied to /repo on every run by comparing the exact key text of _input_interception_key, and the key found in a recording made through the real decorators, with the model's; direct predicate: same call under two other PYTHONHASHSEED values gives the same key, and no two distinct (alias, captured args) share a key.",
+    note='Trusted: Coq kernel + vm_compute; hand-written model of jsonpickle 0.9.3 flatten + json.dumps on the tree domain; quoted-printable for bytes is an oracle (two premises, theorems for the simple encoder); the float grammar float_repr_ok describes float.__repr__ on CPython with float_repr_style=short (validated against the interpreter, enforced on every float the harness sends); correspondence harness. One clause (sets) is a known finding, reported as KNOWN-FINDING.',
+    technique='Coq proof (induction over value trees, sorting/permutation lemmas, verified JSON parser for the printer) + exact key-text correspondence by vm_compute + two-hash-seed differential run',
 )
